@@ -237,8 +237,7 @@ theorem evalEntry_exact (hnb : newBatch B cmd fixed = some nb) (t : Prim) (ht : 
     the test and fit on a command line of their own — in visit order, each once — and nothing is
     left waiting. -/
 theorem whole_walk_exact (hnb : newBatch B cmd fixed = some nb) (t : Prim) (ht : isTestP t = true)
-    (c : Config) (start : Bytes) (root : Node Attr) (g : GS) (hI : IX id B nb g)
-    (hH : (refCfg c).depthFirst = true → ¬ HRootLink (refCfg c) (if c.sorted then sortNode root else root)) :
+    (c : Config) (start : Bytes) (root : Node Attr) (g : GS) (hI : IX id B nb g) :
     let n := if c.sorted then sortNode root else root
     let r := processDir c (.and [.prim t, .prim (.execMulti id dir true cmd fixed)]) start (some root) g
     delivered (cmd :: fixed) r.gs =
@@ -275,7 +274,7 @@ theorem whole_walk_exact (hnb : newBatch B cmd fixed = some nb) (t : Prim) (ht :
         · cases s.curDir <;> exact k _ _
         · exact k _ _
       rw [this] at hp; cases hp
-    · exact processRoot_post (refCfg c) (evalEntry m start) hdf n (hH hdf) _
+    · exact processRoot_postAny (refCfg c) (evalEntry m start) hdf n _
   have hI0 : IX id B nb { g with curDir := none } := hI
   have hex := refNode_exactI (refCfg c) (evalEntry m start) (IX id B nb) (handed (cmd :: fixed) id)
     (handedBy dir nb t start) hev [] 0 n ⟨{ g with curDir := none }, 0, 0⟩ hI0
